@@ -64,11 +64,73 @@ def _rows_tok(rows):
 
 def _gdesc(a):
     a = sparse.csr_matrix(a)
+    if a.nnz and (a.data == 0).any():
+        # stored zeros are part of the input: keep the stored entries
+        c = a.tocoo()
+        return {'shape': list(a.shape), 'coo': [[int(i), int(j), float(v)] for i, j, v in zip(c.row, c.col, c.data)]}
     return {'shape': list(a.shape), 'dense': a.toarray().tolist()}
 
 
 def _gfrom(g):
+    if 'coo' in g:
+        t = g['coo']
+        a = sparse.csr_matrix(([x[2] for x in t], ([x[0] for x in t], [x[1] for x in t])), shape=tuple(g['shape']), dtype=float)
+        a.sort_indices()
+        return a
     return sparse.csr_matrix(np.array(g['dense'], dtype=float).reshape(g['shape']))
+
+
+CONTAINERS = ['bool', 'int64', 'float32', 'dense', 'unsorted', 'duplicates']
+
+
+def _container_ok(a, container):
+    """can the float64 CSR matrix `a` be handed over in this container without changing its values?"""
+    d = a.data
+    if container == 'bool':
+        return bool((d == 1).all())
+    if container == 'int64':
+        return bool((d == np.round(d)).all() and (np.abs(d) < 2 ** 53).all())
+    if container == 'float32':
+        return bool((d.astype(np.float32).astype(float) == d).all())
+    return True
+
+
+def _container(a, container, rng=None):
+    """the same graph in another container: dtype, dense array, CSR with unsorted / duplicated column indices"""
+    a = sparse.csr_matrix(a)
+    if container in (None, 'csr'):
+        return a.copy()
+    if container == 'bool':
+        return a.astype(bool)
+    if container == 'int64':
+        return a.astype(np.int64)
+    if container == 'float32':
+        return a.astype(np.float32)
+    if container == 'dense':
+        return a.toarray()
+    if container == 'unsorted':
+        b = a.copy()
+        for i in range(b.shape[0]):
+            lo, hi = b.indptr[i], b.indptr[i + 1]
+            b.indices[lo:hi] = b.indices[lo:hi][::-1].copy()
+            b.data[lo:hi] = b.data[lo:hi][::-1].copy()
+        b.has_sorted_indices = False
+        return b
+    if container == 'duplicates':
+        # every stored entry split in two halves (scipy sums duplicates on conversion)
+        c = a.tocoo()
+        rows = np.concatenate([c.row, c.row])
+        cols = np.concatenate([c.col, c.col])
+        data = np.concatenate([c.data / 2, c.data / 2])
+        order = np.lexsort((cols, rows))
+        indptr = np.zeros(a.shape[0] + 1, dtype=int)
+        for r in rows:
+            indptr[r + 1] += 1
+        indptr = np.cumsum(indptr)
+        b = sparse.csr_matrix((data[order], cols[order].astype(np.int32), indptr.astype(np.int32)), shape=a.shape)
+        b.has_canonical_format = False
+        return b
+    raise ValueError(container)
 
 
 # ---------------------------------------------------------------------------------------------------
@@ -143,7 +205,7 @@ def case_split(d, n1, n2):
 def _admissible(a):
     a = sparse.csr_matrix(a)
     n = a.shape[0] + (a.shape[1] if a.shape[0] != a.shape[1] else 0)
-    return a.nnz >= 1 and n >= 2 and a.shape[0] >= 1 and a.shape[1] >= 1
+    return a.nnz >= 1 and bool((a.data > 0).any()) and bool((a.data >= 0).all()) and n >= 2 and a.shape[0] >= 1 and a.shape[1] >= 1
 
 
 def _out_cases(alg_name, opts, a, alg, impl_state, sorted_expected, key, sig, desc, bipartite, nontriv):
@@ -206,7 +268,7 @@ def paris_model_line(a, weights, reorder, force_bipartite):
         rows.append(','.join(es) if es else '-')
     total = float(np.sum(data))
     return 'c07.paris %s %s %s %s %s %d' % (';'.join(rows), ','.join(_bits(x) for x in out_w), ','.join(_bits(x) for x in in_w),
-                                         _bits(total), enc_bool(reorder), 40 * n * n + 100)
+                                         _bits(total), enc_bool(reorder), (n + 1) * (4 * n * n + 3))
 
 
 def _enc_bits_dendro(d):
@@ -216,28 +278,40 @@ def _enc_bits_dendro(d):
     return ';'.join('%d,%d,%s,%d' % (int(r[0]), int(r[1]), 'inf' if math.isinf(r[2]) else _bits(r[2]), int(r[3])) for r in d)
 
 
-def cases_paris(a, weights, reorder, force_bipartite=False, gname=''):
+def cases_paris(a, weights, reorder, force_bipartite=False, gname='', container=None, refit=None, ctx=None):
+    """`container`: hand the same graph over as another dtype / a dense array / a non-canonical CSR matrix.
+    `refit`: a matrix fitted first on the same estimator object (the attributes of the second fit are checked)."""
     from sknetwork.hierarchy import Paris
     a = sparse.csr_matrix(a)
     bip = force_bipartite or a.shape[0] != a.shape[1]
     alg = Paris(weights=weights, reorder=reorder)
 
     def f():
-        alg.fit(a.copy(), force_bipartite=force_bipartite)
+        if refit is not None:
+            alg.fit(_gfrom(refit))
+        alg.fit(_container(a, container), force_bipartite=force_bipartite)
         return 'ok'
     st = _call(f)
-    key = ('paris', json.dumps(_gdesc(a)), weights, reorder, force_bipartite)
+    key = ('paris', json.dumps(_gdesc(a)), weights, reorder, force_bipartite, container, json.dumps(refit))
     sig = {'entry': 'Paris', 'weights': weights, 'reorder': reorder, 'bipartite': bip}
     desc = {'f': 'Paris', 'graph': _gdesc(a), 'weights': weights, 'reorder': reorder, 'force_bipartite': force_bipartite}
+    if container:
+        sig['container'] = container
+        desc['container'] = container
+    if refit is not None:
+        sig['refit'] = True
+        desc['refit'] = refit
     nontriv = (a.shape[0] + (a.shape[1] if bip else 0)) >= 3 and a.nnz >= 2
     out = _out_cases('Paris', None, a, alg, st, reorder, key, sig, desc, bip, nontriv)
-    if st == 'ok' and (a.data > 0).all():
+    if st == 'ok' and (a.data >= 0).all():
         # the chain itself, on the same doubles
         full = alg.dendrogram_full_ if bip else alg.dendrogram_
         try:
             line = paris_model_line(a, weights, reorder, force_bipartite)
-        except Exception:
+        except Exception as e:                                     # the pre-processing replayed by the harness failed
             line = None
+            if ctx is not None:
+                ctx.count('paris-model-line-skipped:' + type(e).__name__)
         if line is not None and dd.enc_dendro(full) is not None:
             c = Case(key + ('chain',), dict(sig, attr='chain'), line, 'ok ' + _enc_bits_dendro(full), None, nontriv, desc)
             c.tol = True
@@ -287,7 +361,7 @@ def _fit_capture(alg, a, force_bipartite):
     return rec
 
 
-def cases_louvain(kind, a, opts, force_bipartite=False):
+def cases_louvain(kind, a, opts, force_bipartite=False, container=None, refit=None):
     from sknetwork.hierarchy import LouvainHierarchy, LouvainIteration
     from sknetwork.utils.format import get_adjacency
     a = sparse.csr_matrix(a)
@@ -296,15 +370,23 @@ def cases_louvain(kind, a, opts, force_bipartite=False):
     rec = {}
 
     def f():
-        rec.update(_fit_capture(alg, a.copy(), force_bipartite))
+        if refit is not None:
+            alg.fit(_gfrom(refit))
+        rec.update(_fit_capture(alg, _container(a, container), force_bipartite))
         return 'ok'
     st = _call(f)
     okey = json.dumps(opts, sort_keys=True)
-    key = (kind, json.dumps(_gdesc(a)), okey, force_bipartite)
+    key = (kind, json.dumps(_gdesc(a)), okey, force_bipartite, container, json.dumps(refit))
     sig = {'entry': kind, 'bipartite': bip, 'shuffle': bool(opts.get('shuffle_nodes'))}
     if 'depth' in opts:
         sig['depth'] = opts['depth']
     desc = {'f': kind, 'graph': _gdesc(a), 'opts': opts, 'force_bipartite': force_bipartite}
+    if container:
+        sig['container'] = container
+        desc['container'] = container
+    if refit is not None:
+        sig['refit'] = True
+        desc['refit'] = refit
     n_all = a.shape[0] + (a.shape[1] if bip else 0)
     nontriv = n_all >= 3 and a.nnz >= 2
     out = _out_cases(kind, opts, a, alg, st, True, key, sig, desc, bip, nontriv)
@@ -318,7 +400,9 @@ def cases_louvain(kind, a, opts, force_bipartite=False):
     ttok = _tree_tok(tree)
     # the tree builder against the model, Louvain's answers replayed
     if kind == 'LouvainIteration':
-        mat = (adjacency != 0).astype(int).toarray()
+        pat = sparse.csr_matrix(adjacency, copy=True)
+        pat.data = np.ones(len(pat.data))
+        mat = pat.toarray().astype(int)          # stored entries: the code tests `adjacency.nnz`
         orc = '|'.join('%s>%s' % (enc_list(nd), enc_list(lb)) for nd, lb in rec['calls'] if nd is not None) or '-'
         line = 'c07.louvain_iteration %d %s %d %s' % (n, ';'.join(','.join(str(int(x)) for x in r) for r in mat),
                                                      opts.get('depth', 3), orc)
@@ -364,7 +448,7 @@ def cases_for_graph(ctx, a, rng, full, force_bipartite=False):
     out = []
     po = PARIS_OPTS if full else rng.sample(PARIS_OPTS, 2)
     for w, r in po:
-        out += cases_paris(a, w, r, force_bipartite)
+        out += cases_paris(a, w, r, force_bipartite, ctx=ctx)
     ho = LOUVAIN_H_OPTS if full else [LOUVAIN_H_OPTS[0], rng.choice(LOUVAIN_H_OPTS[1:])]
     for o in ho:
         out += cases_louvain('LouvainHierarchy', a, o, force_bipartite)
@@ -400,6 +484,105 @@ def near_tie_cases(ctx, rng, count):
     return out
 
 
+def wide_range_cases(ctx, rng, count):
+    """Paris on weighted graphs with a wide dynamic range: paths, stars, cycles and random graphs on 3-8 nodes whose
+    edge weights are drawn from a palette of ordinary values, one or two of them multiplied by 10**k or 10**-k
+    (products of node weights leave the float32 range; totals leave it for |k| > 38). All four option pairs."""
+    out = []
+    exps = [20, 25, 30, 35, 38.5, 45]
+    for c in range(count):
+        n = rng.randint(3, 8)
+        kind = rng.choice(['path', 'star', 'cycle', 'random'])
+        if kind == 'path':
+            und = [(i, i + 1) for i in range(n - 1)]
+        elif kind == 'star':
+            und = [(0, i) for i in range(1, n)]
+        elif kind == 'cycle':
+            und = [(i, (i + 1) % n) for i in range(n)] if n > 2 else [(0, 1)]
+        else:
+            und = [(i, j) for i in range(n) for j in range(i + 1, n) if rng.random() < 0.5]
+        und = sorted(set((min(i, j), max(i, j)) for i, j in und if i != j))
+        if not und:
+            continue
+        w = [float(rng.choice([1, 1, 2, 3, 0.5])) for _ in und]
+        for _ in range(rng.choice([1, 1, 2])):
+            k = rng.choice(exps) * rng.choice([1, 1, -1])
+            w[rng.randrange(len(und))] *= 10.0 ** k
+        es, ws = [], []
+        for (i, j), x in zip(und, w):
+            es += [(i, j), (j, i)]
+            ws += [x, x]
+        a = graphs.csr_from_edges(n, es, ws)
+        if a.nnz == 0:
+            continue
+        ctx.count('graph:wide-range ' + kind)
+        for wt, r in (PARIS_OPTS if c % 4 == 0 else rng.sample(PARIS_OPTS, 2)):
+            out += cases_paris(a, wt, r, ctx=ctx)
+    return out
+
+
+WEIGHT_PALETTE = [0.1, 1.0 / 3, 1e-3, 7.0, float(2 ** 24 + 1), 1e20, 1.0, 2.0, 2.5]
+
+
+def container_cases(ctx, rng, count):
+    """the same graphs handed over as bool / int64 / float32 matrices, dense arrays, CSR matrices with unsorted or
+    duplicated column indices; a second fit on an estimator already fitted on another (bipartite / square) input;
+    stored zero entries"""
+    out = []
+    for c in range(count):
+        n = rng.randint(3, 7)
+        if rng.random() < 0.3:
+            nr, nc = rng.randint(2, 4), rng.randint(2, 4)
+            es = graphs.random_edges(rng, nr, 0.6, m=nc)
+            if not es:
+                continue
+            unit = rng.random() < 0.5
+            a = graphs.csr_from_edges(nr, es, [1.0 if unit else float(rng.choice([1, 2, 3, 0.5])) for _ in es], m=nc)
+            fb = nr == nc
+        else:
+            es = graphs.random_edges(rng, n, 0.5, directed=rng.random() < 0.3)
+            if not es:
+                continue
+            unit = rng.random() < 0.5
+            a = graphs.csr_from_edges(n, es, graphs.sym_weights(rng, es, [1.0] if unit else [1.0, 2.0, 3.0, 0.5]))
+            fb = False
+        if a.nnz == 0:
+            continue
+        cont = rng.choice([k for k in CONTAINERS if _container_ok(a, k)])
+        ctx.count('container:' + cont)
+        w, r = rng.choice(PARIS_OPTS)
+        out += cases_paris(a, w, r, fb, container=cont, ctx=ctx)
+        out += cases_louvain('LouvainHierarchy', a, rng.choice(LOUVAIN_H_OPTS), fb, container=cont)
+        out += cases_louvain('LouvainIteration', a, rng.choice(LOUVAIN_I_OPTS), fb, container=cont)
+        if c % 3 == 0:
+            # refit: the estimator has been fitted on an input of the other kind before
+            if a.shape[0] == a.shape[1] and not fb:
+                oes = graphs.random_edges(rng, 2, 0.8, m=3) or [(0, 0)]
+                other = graphs.csr_from_edges(2, oes, [1.0] * len(oes), m=3)
+            else:
+                oes = [(0, 1), (1, 0), (1, 2), (2, 1)]
+                other = graphs.csr_from_edges(3, oes, [1.0] * 4)
+            ctx.count('refit')
+            out += cases_paris(a, w, r, fb, refit=_gdesc(other), ctx=ctx)
+            out += cases_louvain('LouvainHierarchy', a, {}, fb, refit=_gdesc(other))
+            out += cases_louvain('LouvainIteration', a, {}, fb, refit=_gdesc(other))
+        if c % 5 == 0 and a.shape[0] == a.shape[1] and not fb:
+            # a stored zero on a pair of nodes that is not an edge (symmetric)
+            free = [(i, j) for i in range(a.shape[0]) for j in range(i + 1, a.shape[0]) if a[i, j] == 0 and a[j, i] == 0]
+            if free:
+                i, j = rng.choice(free)
+                cz = a.tocoo()
+                z = sparse.csr_matrix((np.concatenate([cz.data, [0.0, 0.0]]),
+                                       (np.concatenate([cz.row, [i, j]]), np.concatenate([cz.col, [j, i]]))), shape=a.shape)
+                z.sort_indices()
+                ctx.count('stored-zero')
+                for wz, rz in PARIS_OPTS[:2]:
+                    out += cases_paris(z, wz, rz, ctx=ctx)
+                out += cases_louvain('LouvainIteration', z, {}, False)
+                out += cases_louvain('LouvainHierarchy', z, {}, False)
+    return out
+
+
 def corpus_cases(ctx):
     p = os.path.join(VERIF, 'corpus', 'C07.jsonl')
     out = []
@@ -424,9 +607,11 @@ def cases_from_desc(desc):
             return [case_reorder(d, n, dd.is_mono_paths(d, n))]
         return [case_split(d, desc['shape'][0], desc['shape'][1])]
     if f == 'Paris':
-        return cases_paris(_gfrom(desc['graph']), desc['weights'], desc['reorder'], desc.get('force_bipartite', False))
+        return cases_paris(_gfrom(desc['graph']), desc['weights'], desc['reorder'], desc.get('force_bipartite', False),
+                           container=desc.get('container'), refit=desc.get('refit'))
     if f in ('LouvainHierarchy', 'LouvainIteration'):
-        return cases_louvain(f, _gfrom(desc['graph']), desc.get('opts', {}), desc.get('force_bipartite', False))
+        return cases_louvain(f, _gfrom(desc['graph']), desc.get('opts', {}), desc.get('force_bipartite', False),
+                             container=desc.get('container'), refit=desc.get('refit'))
     return []
 
 
@@ -484,9 +669,25 @@ def build_cases(ctx):
             continue
         cases += cases_for_graph(ctx, a, rng, full=False)
         ctx.count('graph:' + name.rstrip('0123456789'))
+    # non-integer weights, weights whose float32 image is inexact, large and small weights
+    for name, n, es, w in graphs.suite(rng, 200 if quick else 1500, 3, 10, weights=WEIGHT_PALETTE):
+        if not es:
+            continue
+        a = graphs.csr_from_edges(n, es, w)
+        if a.nnz == 0:
+            continue
+        for wt, r in rng.sample(PARIS_OPTS, 2):
+            cases += cases_paris(a, wt, r, ctx=ctx)
+        if rng.random() < 0.25:
+            cases += cases_louvain('LouvainHierarchy', a, {}, False)
+            cases += cases_louvain('LouvainIteration', a, {}, False)
+        ctx.count('graph:palette ' + name.rstrip('0123456789'))
+    cases += container_cases(ctx, rng, 60 if quick else 800)
     # near-ties: unweighted graphs on 7-9 nodes make many merges of equal height; the float32 similarities of
     # Paris then order a parent and its child by rounding noise (spec lines only: validity of dendrogram_)
     cases += near_tie_cases(ctx, rng, 3000 if quick else 40000)
+    # wide dynamic range of the weights: products of node weights under / overflow the float variables of Paris
+    cases += wide_range_cases(ctx, rng, 120 if quick else 2500)
     # bipartite
     shapes = [(1, 2), (2, 1), (2, 2), (2, 3)] + ([] if quick else [(3, 2), (3, 3), (1, 3)])
     for nr, nc in shapes:
